@@ -202,7 +202,11 @@ def replay(data):
         for bump in (0.0, 1.0):
             def randn(sz, dtype, device, seed, _b=bump):
                 x = real(sz, dtype, device, seed).clone()
-                x.reshape(-1)[0] += _b        # perturb the FIRST noise element of every draw (it belongs to batch row 0)
+                if x.dim() >= 1 and _b:
+                    # perturb everything that belongs to batch row 0 of this draw (a non-symmetric bump, so that the
+                    # antisymmetrised Levy noise changes too)
+                    bump_ = torch.arange(1, x[0].numel() + 1, dtype=x.dtype).reshape(x[0].shape) * 0.37
+                    x[0] += bump_
                 return x
             rbi._randn = randn
             try:
